@@ -46,6 +46,7 @@ THEOREMS = [
     "C05_deny_list_enforced",
     "C05_value_newtype_inner",
     "C05_required_enforced",
+    "C05_required_enforced_direct_refuted",
     "C05_closed_enforced",
     "C05_tuple_arity_enforced",
     "C05_array_arity_enforced",
@@ -143,19 +144,12 @@ def k5_compare(ex, tag, shard=60, chunk=40):
             if json_depth(it["v"]) > 12:
                 K5_DEEP.append(it["name"])
                 continue
-            # reported model gap of IR/Serde.v `missing`: a required member whose type is a plain newtype /
-            # Box over an Option is accepted when absent by the compiled code (model: error)
-            if "ok" in it["out"] and m == "err" and it["valid"] is False and \
-                    only_missing_nullable_required(ex.docs[it["m"]], it["name"], it["v"]):
-                K5_GAP.append({"doc": ex.docs[it["m"]], "definition": it["name"], "instance": it["v"]})
-                continue
             mism.append({"doc": ex.docs[it["m"]], "definition": it["name"], "instance": it["v"],
                          "compiled": it["out"], "model": m[:500]})
     return n_sup, mism
 
 
 K5_DEEP = []
-K5_GAP = []
 
 
 def json_depth(v):
@@ -919,10 +913,6 @@ def run(ctx):
         ctx.coverage["k5_pairs"] = n_sup
         ctx.coverage["k5_mismatches"] = len(mism)
         ctx.coverage["k5_skipped_deeper_than_fuel"] = len(K5_DEEP)
-        ctx.coverage["k5_known_model_gap"] = len(K5_GAP)
-        if K5_GAP:
-            os.makedirs(os.path.join(vlib.WORK, "model-defects"), exist_ok=True)
-            json.dump(K5_GAP[:20], open(os.path.join(vlib.WORK, "model-defects", "c05-k5.json"), "w"), default=str)
         # curated probes through the model too
         cdumps = {i: cw.gen[i]["dump"] for i in range(len(cc)) if cw.status[i] == "ok"}
         ccs = []
